@@ -51,20 +51,28 @@ func (tmgc *TCPMuxGroupCtl) Listen(
 	multiplexer, group, groupKey string,
 	routeConfig vhost.RouteConfig,
 ) (l net.Listener, err error) {
-	tmgc.mu.Lock()
-	tcpMuxGroup, ok := tmgc.groups[group]
-	if !ok {
-		tcpMuxGroup = NewTCPMuxGroup(tmgc)
-		tmgc.groups[group] = tcpMuxGroup
-	}
-	tmgc.mu.Unlock()
+	for {
+		tmgc.mu.Lock()
+		tcpMuxGroup, ok := tmgc.groups[group]
+		if !ok {
+			tcpMuxGroup = NewTCPMuxGroup(tmgc)
+			tmgc.groups[group] = tcpMuxGroup
+		}
+		tmgc.mu.Unlock()
 
-	switch v1.TCPMultiplexerType(multiplexer) {
-	case v1.TCPMultiplexerHTTPConnect:
-		return tcpMuxGroup.HTTPConnectListen(ctx, group, groupKey, routeConfig)
-	default:
-		err = fmt.Errorf("unknown multiplexer [%s]", multiplexer)
-		return
+		switch v1.TCPMultiplexerType(multiplexer) {
+		case v1.TCPMultiplexerHTTPConnect:
+			ln, errRet := tcpMuxGroup.HTTPConnectListen(ctx, group, groupKey, routeConfig)
+			if errRet == errGroupClosed {
+				// the last member left between the lookup and the join; the group has
+				// removed itself, look it up (or create it) again
+				continue
+			}
+			return ln, errRet
+		default:
+			err = fmt.Errorf("unknown multiplexer [%s]", multiplexer)
+			return
+		}
 	}
 }
 
@@ -88,7 +96,9 @@ type TCPMuxGroup struct {
 	tcpMuxLn net.Listener
 	lns      []*TCPMuxGroupListener
 	ctl      *TCPMuxGroupCtl
-	mu       sync.Mutex
+	// closed is set when the last member left: the group is dead and must not be joined again
+	closed bool
+	mu     sync.Mutex
 }
 
 // NewTCPMuxGroup return a new TCPMuxGroup
@@ -110,6 +120,9 @@ func (tmg *TCPMuxGroup) HTTPConnectListen(
 ) (ln *TCPMuxGroupListener, err error) {
 	tmg.mu.Lock()
 	defer tmg.mu.Unlock()
+	if tmg.closed {
+		return nil, errGroupClosed
+	}
 	if len(tmg.lns) == 0 {
 		// the first listener, listen on the real address
 		tcpMuxLn, errRet := tmg.ctl.tcpMuxHTTPConnectMuxer.Listen(ctx, &routeConfig)
@@ -177,7 +190,8 @@ func (tmg *TCPMuxGroup) CloseListener(ln *TCPMuxGroupListener) {
 			break
 		}
 	}
-	if len(tmg.lns) == 0 {
+	if len(tmg.lns) == 0 && !tmg.closed {
+		tmg.closed = true
 		close(tmg.acceptCh)
 		tmg.tcpMuxLn.Close()
 		tmg.ctl.RemoveGroup(tmg.group)
